@@ -9,7 +9,7 @@ import sys
 if sys.version_info[0] > 2:
     def encode(s):
         if isinstance(s, str):
-            s = s.encode('utf-8', 'ignore')
+            s = s.encode('utf-8')
         return s
 
 
@@ -20,7 +20,7 @@ if sys.version_info[0] > 2:
 else:
     def encode(s):
         if isinstance(s, unicode):
-            s = s.encode('utf-8', 'ignore')
+            s = s.encode('utf-8')
         return s
 
 
